@@ -170,6 +170,8 @@ def main(argv=None):
     if S.fails:
         from collections import Counter
         print('  failing clauses (recorded cases):', dict(Counter(f['fails'][0][0] for f in S.fails)))
+    if new:
+        return 1
     if S.harness_errors or S.determinism_mismatch:
         return 2
     if S.evaluations == 0:
